@@ -338,6 +338,61 @@ def ob_bookkeeping(run, oid):
                 o.check(bool(ok), "top_notar|max|%s" % fshort(fn), "top_notar = max(notar[h], top_notar)", sp, {"value": mir.show(t)})
 
 
+def _depends_on_param(prog, b, pidx, depth=0):
+    """every way `b` can answer `true` is behind a positive test in which parameter #pidx takes part (directly, through a closure that
+    compares with it, or by delegating to a crate function that satisfies the same rule for the argument position it is passed at).
+    -> list of problems (empty = ok)"""
+    from engine import paths
+    bad = []
+    if depth > 3:
+        return ["delegation too deep"]
+
+    def uses_param(t):
+        if K.mentions(t, lambda x: x[0] == "param" and x[1] == pidx):
+            # inside a closure: the captured parameter must take part in an equality of the closure body
+            for cl in [x for x in mir.walk(t) if isinstance(x, tuple) and x and x[0] == "closure"]:
+                caps = [nm for nm, ot in cl[2] if K.mentions(ot, lambda x: x[0] == "param" and x[1] == pidx)]
+                cb = prog.bodies.get(cl[1])
+                if caps and cb is not None:
+                    cmp_ = [c for c in cb.calls() if c.name.rsplit("::", 1)[-1] in ("eq", "ne", "cmp")]
+                    if not any(any(K.mentions(cb.operand_term(a), lambda x: x[0] == "upvar" and x[1] in caps) for a in c.args) for c in cmp_):
+                        return False
+            return True
+        return False
+    for atoms, ret, _blocks in paths.decision_table(b, prog):
+        pr = K.peel(ret) if ret is not None else None
+        if isinstance(pr, tuple) and pr and pr[0] == "const" and pr[2] in (0, "false"):
+            continue
+        if isinstance(pr, tuple) and pr and pr[0] == "const":
+            pos = [a for a in atoms if a[2] is True and not D.is_structural_atom(a)]
+            if not any(any(uses_param(x) for x in a[1] if isinstance(x, tuple)) for a in pos):
+                bad.append("answers true under %s" % (G.atoms_show(pos)[-2:] or "no condition"))
+            continue
+        if isinstance(pr, tuple) and pr and pr[0] == "call" and pr[1] in prog.bodies:
+            js = [j for j, a in enumerate(pr[2]) if K.mentions(a, lambda x: x[0] == "param" and x[1] == pidx)]
+            if not js:
+                bad.append("delegates to %s without the hash" % fshort(pr[1]))
+            else:
+                bad += _depends_on_param(prog, prog.bodies[pr[1]], js[0] + 1, depth + 1)
+            continue
+        if pr is None or not uses_param(pr):
+            bad.append("answer %s does not involve the hash" % (mir.show(pr)[:60] if pr is not None else None))
+    return bad
+
+
+def ob_parent_certified(run, oid):
+    prog = run.program("lib")
+    o = run.ob(oid, "'the parent is certified' means a certificate FOR THAT BLOCK HASH: every positive answer of is_notar_fallback_or_stronger / is_notar_fallback compares the stored certificate's hash with the requested one",
+               "with an equivocating leader a slot holds certificates for one block while a child builds on the other: answering by slot makes the child of the uncertified sibling safe-to-notar", floor=2)
+    for fn in ("is_notar_fallback_or_stronger", "is_notar_fallback"):
+        b = prog.body(SS + "::" + fn)
+        if b is None:
+            o.missing("SlotState::" + fn)
+            continue
+        bad = _depends_on_param(prog, b, 2)
+        o.check(not bad, "%s|by-hash" % fn, "SlotState::%s answers true only behind a comparison with its block-hash argument" % fn, b.span, {"problems": bad[:3]})
+
+
 def ob_registry(run, oid):
     prog = run.program("lib")
     o = run.ob(oid, "the waiting registry keeps every child waiting for a parent's certificate",
@@ -351,6 +406,20 @@ def ob_registry(run, oid):
         o.missing("PoolImpl.s2n_waiting_parent_cert")
         return
     ty = f[0]["ty"]
+    # the key names the parent BLOCK (slot and hash): a registry keyed by the slot alone releases the children of every block of that slot
+    m = re.match(r"^[A-Za-z0-9_:]+<(.*)$", ty)
+    inner = m.group(1) if m else ty
+    depth = 0
+    key = ""
+    for ch in inner:
+        if ch in "(<[":
+            depth += 1
+        elif ch in ")>]":
+            depth -= 1
+        if ch == "," and depth == 0:
+            break
+        key += ch
+    o.check(any(x in key for x in ("Hash", "MerkleRoot")), "PoolImpl.s2n_waiting_parent_cert|keyed-by-block", "the registry is keyed by the parent's block id (slot AND hash)", r["span"], {"key": key.replace("alpenglow::", "")})
     # value type of the map: after the key tuple
     multi = any(x in ty.split(")", 1)[-1] for x in ("Vec<", "SmallVec<", "BTreeSet<", "HashSet<", "VecDeque<"))
     if multi:
@@ -386,3 +455,5 @@ def check(run):
     ob_s2n_events(run, "O6.4")
     ob_bookkeeping(run, "O6.5")
     ob_registry(run, "O6.6")
+    ob_parent_certified(run, "O6.8")
+    D.ob_loop_exits(run, "O6.9", ["consensus::pool"], "a certificate can release several waiting children, a skip vote several pending blocks: leaving the loop at the first one that has nothing to report leaves the others waiting for ever")
